@@ -62,7 +62,7 @@ class LineCheck:
                 n = min(len(b), n * 2)
         return mk(b)
 
-    def run(self, tier, seed, replay):
+    def run(self, tier, seed, replay, write=True):
         t0 = time.time(); prop = self.prop
         wd = vlib.workdir(prop)
         rdir = os.path.join(vlib.ROOT, "replays")
@@ -158,7 +158,9 @@ class LineCheck:
                    evaluations=total, distinct_nontrivial=nontriv, rule=self.rule,
                    traces_validated_against_impl=total, command_kinds=kinds,
                    mismatches=len(mism), spec_failures=len(specf), crashes=len(crashes), corpus=len(corpus), samples=samples)
-        vlib.write_evidence(prop, tier, seed, cov, self.assumptions, time.time() - t0, violations)
+        self.last = (cov, violations, time.time() - t0)
+        if write:
+            vlib.write_evidence(prop, tier, seed, cov, self.assumptions, time.time() - t0, violations)
         try: os.rmdir(wd)
         except OSError: pass
         return 1 if violations else 0
